@@ -170,14 +170,14 @@ def planted_optimal(rnd, nr, nc, kind="small", dens=0.5):
     return _names(m)
 
 
-def planted_infeasible(rnd, nr, nc, kind="small", margin=None):
+def planted_infeasible(rnd, nr, nc, kind="small", margin=None, extreme=False):
     """start from a feasible planted LP then add two rows that contradict by `margin` along a random combination"""
     m = planted_optimal(rnd, max(1, nr - 2), nc, kind)
     w = [rnd_num(rnd, "int") for _ in range(nc)]
     if all(v == 0 for v in w):
         w[0] = F(1)
     a = rnd_num(rnd, kind)
-    eps = margin if margin is not None else F(1, 2 ** rnd.choice([1, 10, 60, 100, 200]))
+    eps = margin if margin is not None else F(1, 2 ** (rnd.choice([2000, 13000, 13000, 17000]) if extreme else rnd.choice([1, 10, 60, 100, 200])))
     style = rnd.choice(["LG", "EE", "RG", "LR"])
     def row(s, rhs, rng=0):
         r = Row(None, s, rhs, rng)
@@ -369,7 +369,7 @@ def structured(rnd, nr, nc, kind="small", style=None):
     return m
 
 
-def knife(rnd, far=False):
+def knife(rnd, far=False, extreme=False):
     """LPs whose status hinges on a quantity far below double precision: a `knife` gadget (infeasible by eps, a single feasible
     point, or feasible by eps; eps = 2^-k or lost in the rounding of 2^53-sized data) embedded in a small planted LP, with the
     gadget's columns moved to random positions (often first).  Decides between OPTIMAL and INFEASIBLE only in exact arithmetic."""
@@ -379,7 +379,10 @@ def knife(rnd, far=False):
     # `freeray` LPs are feasible only at points beyond the library's infinity (1e150): no definitive answer can be demanded for
     # them (C03), only that a reported INFEASIBLE is proved (C02): they are generated on request only
     style = "freeray" if far else rnd.choice(["bound", "bound", "sum", "big", "chain", "tied", "tied", "tinycoef"])
-    eps = F(1, 2 ** rnd.choice([20, 28, 30, 31, 35, 40, 52, 60, 90])) * sgn
+    # 12000+: below what the last working precision of the exact driver (12 levels from 128 bits, x1.5 each) can resolve
+    # extreme: margins the last working precision of the exact driver (12 levels from 128 bits, x1.5 each) cannot resolve; no
+    # definitive answer can be demanded there, only that a definitive answer given is certified
+    eps = F(1, 2 ** (rnd.choice([400, 12000, 16000]) if extreme else rnd.choice([20, 28, 30, 31, 35, 40, 52, 60, 90]))) * sgn
     new_cols, new_rows = [], []
     if style == "tied":
         # an expression e(x) is capped twice, by u and by u -/+ 2^-k, through two different mechanisms (L row, upper side of a
@@ -559,6 +562,10 @@ def family(rnd, name):
         return knife(rnd)
     if name == "knife-far":
         return knife(rnd, far=True)
+    if name == "knife-x":
+        return knife(rnd, extreme=True)
+    if name == "planted-inf-x":
+        return planted_infeasible(rnd, rnd.randint(2, 6), rnd.randint(1, 6), extreme=True)
     if name == "big":
         return big(rnd)
     if name == "small-rand":
